@@ -259,6 +259,44 @@ def main(tier, seed):
         except Exception as e:
             rep.violation('smooth:exception:%s' % type(e).__name__, 'forward driver raises %r' % (e,), dict(kind='smooth', prog=prog, x=x.tolist(), exc=repr(e)))
 
+    # ---------------- several seeds alive at once: seeds created for a list of points first, evaluated afterwards, must give what one
+    # seed at a time gives (seed constructors share no state and hand out independent arrays)
+    n_b = 15 if tier == 'quick' else 200
+    for _ in range(n_b):
+        N = rng.randint(1, 3)
+        prog = progs.gen_prog(rng, ap, N=N, nout=1, linalg=False)
+        text = progs.to_text(prog)
+        f = lambda z: progs.run(prog, z, ap)[0]
+        pts = [progs.rand_point(rng, N) for _ in range(3)]
+        v = progs.rand_point(rng, N)
+        d = rng.randint(1, 3)
+        drivers = {
+            'jacobian': (lambda x: UTPM.init_jacobian(x), lambda y: UTPM.extract_jacobian(y)),
+            'jac_vec': (lambda x: UTPM.init_jac_vec(x, v), lambda y: UTPM.extract_jac_vec(y)),
+            'hessian': (lambda x: UTPM.init_hessian(x), lambda y: UTPM.extract_hessian(N, y)),
+            'hess_vec': (lambda x: UTPM.init_hess_vec(x, v), lambda y: UTPM.extract_hess_vec(N, y)),
+            'tensor': (lambda x: UTPM.init_tensor(d, x), lambda y: UTPM.extract_tensor(N, y, as_full_matrix=False)),
+        }
+        for name, (init, extract) in drivers.items():
+            rep.count('driver', 'batch:' + name)
+            rep.case(('batch', name, text, repr([p.tolist() for p in pts]), d), N >= 2, sample=dict(driver='seeds alive simultaneously: ' + name, N=N, program=text[:200]))
+            try:
+                one_by_one = [numpy.asarray(extract(f(init(p.copy())))) for p in pts]
+                seeds = [init(p.copy()) for p in pts]
+                snap = [numpy.array(s_.data, copy=True) for s_ in seeds[:1]]
+                ys_ = [f(s_) for s_ in seeds]
+                ysnap = [numpy.array(y_.data, copy=True) for y_ in ys_]
+                batch = [numpy.array(extract(y_), copy=True) for y_ in ys_]
+                again = [numpy.asarray(extract(y_)) for y_ in ys_]
+                if not all(numpy.array_equal(a, b, equal_nan=True) for a, b in zip(batch, again)) or not all(numpy.array_equal(y_.data, sn, equal_nan=True) for y_, sn in zip(ys_, ysnap)):
+                    rep.violation('extract-twice:' + name, 'extract_%s is not a pure function of the propagated polynomial: a second extraction differs or the polynomial was modified' % name,
+                                  dict(kind='batch', driver=name, prog=prog, points=[p.tolist() for p in pts], v=v.tolist(), d=d))
+                if not all(a.shape == b.shape and numpy.array_equal(a, b, equal_nan=True) for a, b in zip(one_by_one, batch)):
+                    rep.violation('batch:' + name, 'init_%s: seeds created for three points before any evaluation give other derivatives than one seed at a time' % name,
+                                  dict(kind='batch', driver=name, prog=prog, points=[p.tolist() for p in pts], v=v.tolist(), d=d))
+            except Exception as e:
+                rep.violation('batch:%s:exception' % name, 'forward driver %s raises %r' % (name, e), dict(kind='batch', driver=name, prog=prog, exc=repr(e)))
+
     # ---------------- array-valued programs (vector, matrix, 3-D results): y = reshape(C x + Q (x*x)), integer data, exact
     n_a = 30 if tier == 'quick' else 400
     for _ in range(n_a):
